@@ -753,6 +753,10 @@ class QvmCpu:
         self._bitwise(lambda a, b: ~(a ^ b))
 
     def _exec_errget(self):
+        if self.last_trap is None:
+            # no error has occurred yet
+            self.push(CellType.INTEGER, 0)
+            return
         self.push(CellType.INTEGER, self.last_trap.value)
 
     def _exec_errhand(self, target):
